@@ -512,6 +512,12 @@ func (s *transactionStore) Watch(ctx context.Context, ch chan<- configapi.Transa
 				delete(s.watchers, id)
 			}
 			s.mu.Unlock()
+			// the dispatcher may be in the middle of handing an event to this watcher: keep taking them,
+			// whichever way the watch ends, or the dispatcher blocks for every other watcher too
+			go func() {
+				for range eventCh {
+				}
+			}()
 		}()
 
 		defer close(ch)
@@ -537,9 +543,14 @@ func (s *transactionStore) Watch(ctx context.Context, ch chan<- configapi.Transa
 					if ctx.Err() != nil {
 						return
 					}
-					ch <- configapi.TransactionEvent{
+					select {
+					case ch <- configapi.TransactionEvent{
 						Type:        configapi.TransactionEvent_REPLAYED,
 						Transaction: *transaction,
+					}:
+					case <-ctx.Done():
+						// the watcher may have stopped reading before it cancelled
+						return
 					}
 				}
 			} else {
@@ -583,9 +594,14 @@ func (s *transactionStore) Watch(ctx context.Context, ch chan<- configapi.Transa
 						transaction := entry.Value
 						transaction.Version = uint64(entry.Version)
 						transaction.ID.Index = configapi.Index(entry.Index)
-						ch <- configapi.TransactionEvent{
+						select {
+						case ch <- configapi.TransactionEvent{
 							Type:        configapi.TransactionEvent_REPLAYED,
 							Transaction: *transaction,
+						}:
+						case <-ctx.Done():
+							// the watcher may have stopped reading before it cancelled
+							return
 						}
 					}
 				}
@@ -595,7 +611,12 @@ func (s *transactionStore) Watch(ctx context.Context, ch chan<- configapi.Transa
 		for {
 			select {
 			case event := <-eventCh:
-				ch <- event
+				select {
+				case ch <- event:
+				case <-ctx.Done():
+					// the watcher is gone (it may have stopped reading before its context was cancelled)
+					return
+				}
 			case <-ctx.Done():
 				go func() {
 					for range eventCh {
